@@ -2,6 +2,7 @@ import Sozu.Common.Proto
 import Sozu.Headers.Model
 import Sozu.Headers.Editor
 import Sozu.Headers.Strict
+import Sozu.Headers.Hsts
 open Sozu Sozu.Proto Sozu.Headers
 
 /-! Line protocol of the Headers area (C03 / C13). One line in, one line out.
@@ -85,12 +86,35 @@ def parseEdit (s : String) : Option HeaderEdit :=
     pure { key, val, mode }
   | _ => none
 
-/-- driver state: the last accepted request and its limits (for the `body` op) -/
-abbrev St := Option (Req × Limits)
+/-- `e,m,s,p,f`: enabled t/f/n, max_age number or n, includeSubDomains, preload, force_replace_backend -/
+def parseCfg (w : String) : Option (Option HstsCfg) :=
+  if w = "~" then some none else
+  match w.splitOn "," with
+  | [e, m, s, p, f] => do
+    let enabled ← if e = "t" then some (some true) else if e = "f" then some (some false) else if e = "n" then some none else none
+    let maxAge ← if m = "n" then some none else m.toNat?.map some
+    let s ← parseBool s
+    let p ← parseBool p
+    let f ← parseBool f
+    pure (some { enabled, maxAge, includeSub := s, preload := p, forceReplace := f })
+  | _ => none
+
+def modeStr : EditMode → String
+  | .append => "a"
+  | .setIfAbsent => "i"
+  | .set => "s"
+
+def showEdits (l : List HeaderEdit) : String :=
+  if l.isEmpty then "_" else ",".intercalate (l.map fun e => hx e.key ++ ":" ++ hx e.val ++ ":" ++ modeStr e.mode)
+
+/-- driver state: the last accepted request and its limits (for the `body` op), and the HSTS route state -/
+structure St where
+  req : Option (Req × Limits) := none
+  hsts : HState := {}
 
 def stepLine (st : St) (line : String) : St × List String :=
   match words line with
-  | ["new"] => (none, ["new"])
+  | ["new"] => ({}, ["new"])
   -- h2 <maxList> <maxFields> <endStream> <scheme> <ctx|-> <headers>
   | ["h2", ml, mf, es, sch, cx, hs] =>
     match ml.toNat?, mf.toNat?, parseBool es, hexToBytes sch, parseList parsePair hs with
@@ -101,8 +125,8 @@ def stepLine (st : St) (line : String) : St × List String :=
         else (parseCtx cx).map fun c => handleRequest lim c es hl
       match res with
       | none => (st, ["bad-op"])
-      | some (.error r) => (none, [s!"reject {clsStr r.cls} {repr r}"])
-      | some (.ok r) => (some (r, lim), [showReq sch r])
+      | some (.error r) => ({ st with req := none }, [s!"reject {clsStr r.cls} {repr r}"])
+      | some (.ok r) => ({ st with req := some (r, lim) }, [showReq sch r])
     | _, _, _, _, _ => (st, ["bad-op"])
   -- trailer <maxList> <maxFields> <endStream> <headers>
   | ["trailer", ml, mf, es, hs] =>
@@ -114,7 +138,7 @@ def stepLine (st : St) (line : String) : St × List String :=
     | _, _, _, _ => (st, ["bad-op"])
   -- body <chunks> <raw trailer list|~>: wire bytes after the header section of the last accepted request
   | ["body", cs, tr] =>
-    match st, parseList hexToBytes cs with
+    match st.req, parseList hexToBytes cs with
     | some (r, lim), some chunks =>
       if tr = "~" then (st, [s!"ok {hx (wireBody r chunks none)}"])
       else match parseList parsePair tr with
@@ -160,6 +184,39 @@ def stepLine (st : St) (line : String) : St × List String :=
       let resp := applyEdits (res.map fun p => { key := p.1, val := p.2, mode := .append }) (editResponse c respFields)
       (st, [s!"ok {hx r'.target} {showPairs (emitted r')} | {showFields resp}"])
     | _, _, _, _, _, _, _, _, _, _, _, _ => (st, ["bad-op"])
+  -- HSTS route state: hdef <cfg|~> / hadd <id> <deny> <policy> <other edits> <block cfg|~> / hpatch <cfg> / hunset / hdel <id> / hlook <id> <resp fields>
+  | ["hdef", c] =>
+    match parseCfg c with
+    | some d => ({ st with hsts := { default := d, routes := [] } }, ["ok"])
+    | none => (st, ["bad-op"])
+  | ["hadd", id, dn, pol, oth, c] =>
+    match id.toNat?, parseBool dn, parseBool pol, parseList parseEdit oth, parseCfg c with
+    | some id, some dn, some pol, some oth, some b =>
+      match hAdd st.hsts id b pol oth dn with
+      | some h => ({ st with hsts := h }, ["ok"])
+      | none => (st, ["err"])
+    | _, _, _, _, _ => (st, ["bad-op"])
+  | ["hpatch", c] =>
+    match parseCfg c with
+    | some (some cfg) => let r := hPatch st.hsts cfg; ({ st with hsts := r.1 }, [s!"ok {r.2}"])
+    | _ => (st, ["bad-op"])
+  | ["hunset"] =>
+    let r := hRefresh { st.hsts with default := none } none
+    ({ st with hsts := r.1 }, [s!"ok {r.2}"])
+  | ["hdel", id] =>
+    match id.toNat? with
+    | some id =>
+      match hRemove st.hsts id with
+      | some h => ({ st with hsts := h }, ["ok"])
+      | none => (st, ["err"])
+    | none => (st, ["bad-op"])
+  | ["hlook", id, fs] =>
+    match id.toNat?, parseList parseField fs with
+    | some id, some fs =>
+      match hLookup st.hsts id with
+      | some edits => (st, [s!"ok {showEdits edits} | {showFields (applyEdits edits fs)}"])
+      | none => (st, ["none"])
+    | _, _ => (st, ["bad-op"])
   -- resp <ctx> <fields>
   | ["resp", cx, fs] =>
     match parseCtx cx, parseList parseField fs with
@@ -172,4 +229,4 @@ def stepLine (st : St) (line : String) : St × List String :=
     | _, _ => (st, ["bad-op"])
   | _ => (st, ["bad-op"])
 
-def main : IO Unit := runDriver stepLine (none : St)
+def main : IO Unit := runDriver stepLine ({} : St)
